@@ -518,6 +518,7 @@ func dominatesAllPreds(d, b *ssa.BasicBlock) bool { return true }
 
 // K3: counters and classification advance in the completion clause as unconditional statements.
 func ruleK3(c *Ctx) {
+	ruleK3path(c, "K3", "")
 	type want struct {
 		fn, counter string
 		extra       []string
@@ -563,7 +564,11 @@ func ruleK3(c *Ctx) {
 			}
 			return true
 		})
-		c.check(found, "K3", w.fn+":clause", fd.Pos(), "completion clause (case 0, ...) found")
+		if !found {
+			c.ok("K3", w.fn+":clause", fd.Pos(), "no `case 0, ...` clause in this shape; the SSA must-pass obligations decide the rule")
+		} else {
+			c.ok("K3", w.fn+":clause", fd.Pos(), "completion clause (case 0, ...) found")
+		}
 	}
 	// K4: the first contact is remembered as soon as it completes when there is no array to hold it
 	if fd := c.Decls["ParseAllContactValues"]; fd != nil {
@@ -611,4 +616,171 @@ func init() {
 		Assumptions: []string{"values read through the chosen slot pointer are capacity-independent because scratch and fresh slots are indistinguishable (K2 + C12-Z2)"},
 		NotDecided:  "'stored elements are a prefix of what a larger array would hold' as values; GetContact first/last retrieval semantics",
 	})
+}
+
+// pathEvents explores from the sub-parser call of a slot site to the next call / a return, with verdict
+// refinement, and reports for every terminal path the verdict set and the events seen on it.
+type pathEnd struct {
+	vs     VSet
+	cont   bool // goes on to the next element (reaches the sub-parser call again)
+	events map[string]bool
+	pos    token.Pos
+}
+
+func pathEvents(e *errAnalysis, s slotSite, event func(ins ssa.Instruction) string) []pathEnd {
+	var out []pathEnd
+	type node struct {
+		b  *ssa.BasicBlock
+		vs VSet
+		ev string
+	}
+	seen := map[node]bool{}
+	evKey := func(m map[string]bool) string {
+		var ks []string
+		for k := range m {
+			ks = append(ks, k)
+		}
+		sort.Strings(ks)
+		return strings.Join(ks, ",")
+	}
+	var walk func(b *ssa.BasicBlock, start int, vs VSet, ev map[string]bool)
+	walk = func(b *ssa.BasicBlock, start int, vs VSet, ev map[string]bool) {
+		if start == 0 {
+			k := node{b, vs, evKey(ev)}
+			if seen[k] {
+				return
+			}
+			seen[k] = true
+		}
+		for i := start; i < len(b.Instrs); i++ {
+			ins := b.Instrs[i]
+			if ins == ssa.Instruction(s.call) {
+				out = append(out, pathEnd{vs, true, ev, s.call.Pos()})
+				return
+			}
+			if name := event(ins); name != "" {
+				nev := map[string]bool{}
+				for k := range ev {
+					nev[k] = true
+				}
+				nev[name] = true
+				ev = nev
+			}
+			switch t := ins.(type) {
+			case *ssa.Return:
+				out = append(out, pathEnd{vs, false, ev, t.Pos()})
+				return
+			case *ssa.If:
+				for si, succ := range b.Succs {
+					nvs := byteSetToVSet(refineByCond(vsetToByteSet(vs), t.Cond, si == 0, func(o ssa.Value) bool { return o == s.errv }))
+					if nvs == 0 {
+						continue
+					}
+					walk(succ, 0, nvs, ev)
+				}
+				return
+			}
+		}
+		for _, succ := range b.Succs {
+			walk(succ, 0, vs, ev)
+		}
+	}
+	ei := errResultIndex(s.call.Call.StaticCallee())
+	start := 0
+	for i, ins := range s.call.Block().Instrs {
+		if ins == ssa.Instruction(s.call) {
+			start = i + 1
+		}
+	}
+	walk(s.call.Block(), start, e.ret[s.call.Call.StaticCallee()][ei], map[string]bool{})
+	return out
+}
+
+// completionEvent names the bookkeeping instructions of a completion path.
+func completionEvent(ins ssa.Instruction) string {
+	switch x := ins.(type) {
+	case *ssa.Store:
+		fa, ok := x.Addr.(*ssa.FieldAddr)
+		if !ok {
+			return ""
+		}
+		cell := fieldCell(fa)
+		// X.N = X.N + 1
+		if strings.HasSuffix(cell, ".N") {
+			if bo, ok := x.Val.(*ssa.BinOp); ok && bo.Op == token.ADD {
+				if k, isC := constIntOf(bo.Y); isC && k == 1 {
+					if ld, ok := bo.X.(*ssa.UnOp); ok {
+						if lfa, ok := ld.X.(*ssa.FieldAddr); ok && fieldCell(lfa) == cell {
+							return "N++"
+						}
+					}
+				}
+			}
+		}
+		if cell == "URIParamsLst.Types" {
+			return "Types|="
+		}
+		if cell == "URIParam.T" {
+			if call, ok := x.Val.(*ssa.Call); ok && call.Call.StaticCallee() != nil && call.Call.StaticCallee().Name() == "URIParamResolve" {
+				return "T=Resolve"
+			}
+		}
+	case *ssa.Call:
+		if cal := x.Call.StaticCallee(); cal != nil {
+			switch ssaKey(cal) {
+			case "HdrFlags.Set":
+				return "PFlags.Set"
+			case "HdrLst.SetHdr":
+				return "SetHdr"
+			}
+		}
+	}
+	return ""
+}
+
+// ruleK3path: the completion bookkeeping is passed on every completion path (SSA must-pass; neutral to
+// switch/if restructuring).
+func ruleK3path(c *Ctx, rule string, only string) {
+	e := newErrAnalysis(c.Prog)
+	mv, _ := c.namedConstInt("ErrHdrMoreValues")
+	eoh, _ := c.namedConstInt("ErrHdrEOH")
+	want := map[string][]string{
+		"ParseHeaders":          {"N++", "PFlags.Set", "SetHdr"},
+		"ParseAllContactValues": {"N++"},
+		"ParseAllPAIValues":     {"N++"},
+		"ParseAllURIParams":     {"N++", "T=Resolve", "Types|="},
+		"ParseAllURIHdrs":       {"N++"},
+	}
+	for _, s := range findSlotSites(c) {
+		fk := ssaKey(s.fn)
+		w, ok := want[fk]
+		if !ok || (only != "" && !strings.Contains(only, fk)) {
+			continue
+		}
+		comp := VSet(1)
+		if fk != "ParseHeaders" {
+			comp |= 1 << uint(mv)
+		}
+		if strings.HasPrefix(fk, "ParseAllURI") {
+			comp |= 1 << uint(eoh)
+		}
+		ends := pathEvents(e, s, completionEvent)
+		n := 0
+		missing := map[string]token.Pos{}
+		for _, pe := range ends {
+			if pe.vs&^comp != 0 || pe.vs == 0 {
+				continue // not a pure completion path
+			}
+			n++
+			for _, ev := range w {
+				if !pe.events[ev] {
+					missing[ev] = pe.pos
+				}
+			}
+		}
+		for _, ev := range w {
+			pos, miss := missing[ev]
+			c.check(!miss && n > 0, rule, fk+":must-pass:"+ev, pos, fmt.Sprintf("every one of the %d completion paths (verdict in the completion set) passes %s before the next element / the return", n, ev))
+		}
+	}
 }
